@@ -165,7 +165,7 @@ m("c19-cerr-format-leak-on-warning", "C19", 1, [("src/gm2_mf.cpp", "#include <cm
   ("src/gm2_mf.cpp",
    "      WARNING(\"Could not determine lambda_QCD: \" << e.what()\n              << \".  Using lambda_QCD = \" << lambda_qcd);\n",
    "      std::cerr << std::scientific << std::setprecision(17);\n      WARNING(\"Could not determine lambda_QCD: \" << e.what()\n              << \".  Using lambda_QCD = \" << lambda_qcd);\n")],
-  "a rarely taken warning path leaves std::cerr in scientific/17-digit mode: process-global state changed by a calculation")
+  "a rarely taken warning path leaves std::cerr in scientific/17-digit mode: the leak itself changes only the text of later diagnostics (counted as an observation), but setting format flags of the shared std::cerr object from several threads is a data race (setf/precision are not among the I/O functions the standard makes race-free): reported as race:std::cerr by the simulator and by ThreadSanitizer")
 
 m("c19-rounding-mode-saved-and-restored", "C19", 0, [("src/gm2_mf.cpp", "#include <cmath>", "#include <cfenv>\n#include <cmath>"),
   ("src/gm2_mf.cpp",
